@@ -523,8 +523,12 @@ func doReplay(bin, prop, path string, verbose bool) int {
 	// simulator does not own (Go's random choice among ready select cases
 	// inside net/http): its replays are given three attempts
 	for attempt := 1; ; attempt++ {
-		rc, loose := doReplayOnce(bin, prop, path, verbose)
-		if rc == 1 || !loose || attempt == 3 {
+		rc, _ := doReplayOnce(bin, prop, path, verbose)
+		// (three attempts for every scenario: a changed tree may add sources of
+		// nondeterminism of its own, e.g. by making an outcome depend on Go's map
+		// iteration order; a violation that never re-hits its oracle is still
+		// reported as an internal error, never as a violation)
+		if rc == 1 || attempt == 3 {
 			return rc
 		}
 	}
@@ -713,7 +717,10 @@ func parseRaces(log string) []raceReport {
 				}
 			}
 		}
-		if len(frames) == 0 {
+		// a race of relic's has relic code on both sides; one whose other side is
+		// harness code only (say, the harness swapping a process-wide hook while a
+		// background goroutine of relic still runs) is the harness's
+		if len(frames) < 2 {
 			continue
 		}
 		sort.Strings(frames)
